@@ -737,6 +737,11 @@ func Ref(t *Term) string {
 // Emit writes the definitions needed for t (post-order) that are not in `defined`,
 // marking them; returns the reference name.
 func Emit(t *Term, defined map[int]bool, out *strings.Builder) string {
+	return EmitRec(t, defined, out, nil)
+}
+
+// EmitRec is Emit that also appends the ids it defines to *rec (if non-nil).
+func EmitRec(t *Term, defined map[int]bool, out *strings.Builder, rec *[]int) string {
 	if t.Op == OConst {
 		return constStr(t)
 	}
@@ -766,6 +771,9 @@ func Emit(t *Term, defined map[int]bool, out *strings.Builder) string {
 		x := f.t
 		st = st[:len(st)-1]
 		defined[x.ID] = true
+		if rec != nil {
+			*rec = append(*rec, x.ID)
+		}
 		if x.Op == OVar {
 			fmt.Fprintf(out, "(declare-const %s %s)\n", x.Name, SortStr(x.W))
 			continue
